@@ -403,8 +403,13 @@ def check(run: Run) -> None:
         elif lp.body.stmts.index(guards[0]) > min([k for k, st in enumerate(lp.body.stmts) if any(R.callee_name(c) in ("emplace", "eval") for c in R.calls(st))] or [99]):
             run.finding("C11.i", "wire_lifted_reduce_tsl:guard-after-use", "the validity guard must come before the element is used", loc=fa.loc(lp))
 
+    with run.obligation("C11.j", "K4", "the full reconcile of a dictionary reduce registers one leaf per CURRENT key (slot_live): a key removed in the previous cycle, whose slot is "
+                        "still occupied until the source's next mutation, is not an element of the fold"):
+        R.membership_scans(run, "C11.j", [(RED, "reconcile_leaf_state", None, "leaves = current keys of the dictionary")])
+
 
 VARIANTS = [
+    {"id": "j-leaf-scan-occupied", "expect": "C11.j", "edits": [{"file": RED, "find": "dict.slot_live(slot)", "replace": "dict.slot_occupied(slot)"}]},
     {"id": "i-lifted-fold-stops-at-first-invalid", "expect": "C11.i", "edits": [{"file": "include/hgraph/lib/std/operators/impl/higher_order_impl.h", "find": "                    auto item = list[i];\n                    if (!item.valid()) { continue; }\n                    if (!accumulator.has_value())", "replace": "                    auto item = list[i];\n                    if (!item.valid()) { break; }\n                    if (!accumulator.has_value())"}]},
     {"id": "h-zero-repoint-ignored-for-singleton", "expect": "C11.h", "edits": [{"file": "src/hgraph/runtime/reduce_node.cpp", "find": "                zero_repointed && storage.dense_to_key.size() <= 1;", "replace": "                zero_repointed && storage.dense_to_key.empty();"}]},
     {"id": "h-twin-size-less-than-two", "expect": None, "edits": [{"file": "src/hgraph/runtime/reduce_node.cpp", "find": "                zero_repointed && storage.dense_to_key.size() <= 1;", "replace": "                zero_repointed && storage.dense_to_key.size() < 2;"}]},
